@@ -218,7 +218,7 @@ class Execution:
 
 def limit_for(conf, nw):
     n = abs(int(conf['n']))
-    return 64 * (min(n, 100000) + nw) + 2000
+    return 64 * (min(n, 2000) + nw) + 2000
 
 
 def execute(conf, nw, prefix=(), macro=False, seed=None, stick=0.0, record_choices=False):
